@@ -44,7 +44,7 @@ def requests(tier, rng):
                 L.append("poly::%s::rej_eta %d %d %s %d" % (lv, alen, max(alen, 1), hx(b), len(b)))
             L.append("poly::%s::rej_eta 7 7 %s %d" % (lv, hx(b), min(len(b), 3)))
         L.append("poly::%s::rej_eta 10 3 %s 100" % (lv, hx(bytes(100))))
-    ns = 4 if tier == "quick" else 60
+    ns = 12 if tier == "quick" else 100
     nonces = [0, 1, 255, 256, 0x0102, 0xFF00, 65535]
     for _ in range(ns):
         seed = R(64)
@@ -53,6 +53,11 @@ def requests(tier, rng):
             for s in SETS:
                 L.append("poly::%s::uniform_eta %s %d" % (s, hx(seed), nonce))
                 L.append("poly::%s::uniform_gamma1 %s %d" % (s, hx(seed), nonce))
+        for s in SETS:
+            L.append("poly::%s::challenge %s" % (s, hx(seed)))
+    # the challenge sampler's rare steps (a stream byte equal to the running index, early large bytes) need many seeds
+    for _ in range(80 if tier == "quick" else 1500):
+        seed = R(64)
         for s in SETS:
             L.append("poly::%s::challenge %s" % (s, hx(seed)))
     for lv in ("lvl2", "lvl3", "lvl5"):
